@@ -13,7 +13,8 @@ long SKP-free runs, so that every (buffer fill 0..7) x (symbols added 0..4) comb
 Oracle: the expected symbol sequence is the concatenation of the non-SKP symbols of the accepted words.  Every
 output word (source.valid & ready) must continue that sequence exactly (prefix property: order, no loss, no
 duplicate, ctrl bit included).  Bounded progress: never more than 16 accepted symbols outstanding and at most 3 after
-the drain.  `skip_removed`: one strobe per accepted word that contains a SKP, 0..3 cycles after it, none otherwise.
+the drain.  `sink.ready` must be high in every cycle (the physical layer ignores it: rx pins -> sink, valid tied
+high; a remover that back-pressures loses words there).  `skip_removed`: one strobe per accepted word that contains a SKP, 0..3 cycles after it, none otherwise.
 
 Not judged: behaviour with `source.ready` low (the statement excludes it); the exact cycle an output word appears;
 `bytes_in_buffer` (diagnostic).
@@ -29,13 +30,13 @@ REQUIRED_BINS = (["mask_%x" % m for m in range(16)] +
                  ["fill%d_add%d" % (f, a) for f in range(8) for a in range(5)] +
                  ["all_skp_run_ge3", "data_3c_kept", "near_skp_ctrl_kept", "skp_pair_split_over_words",
                   "gap_with_skp_garbage", "always_valid_case", "com_symbol", "regroup_offset_1", "regroup_offset_2", "regroup_offset_3"])
-REQUIRED_EVENTS = ["words_in", "words_out", "symbols_compared", "skp_symbols_in", "skip_removed_strobes", "skp_words_in"]
+REQUIRED_EVENTS = ["sink_ready_checked", "words_in", "words_out", "symbols_compared", "skp_symbols_in", "skip_removed_strobes", "skp_words_in"]
 ASSUMPTIONS = ["source.ready is held high (statement); sink.valid low only in the gap cases and in the final drain",
                "an output word may appear any number of cycles after its symbols were accepted as long as at most 16 symbols are outstanding"]
 
 SKP = (0x3C, 1)
 K_OTHERS = [0x5C, 0x7C, 0x9C, 0xBC, 0xDC, 0xFB, 0xFD, 0xFE, 0xF7]
-NEAR_SKP_CTRL = [0x3D, 0x1C, 0x7C, 0x38, 0xBC, 0x2C]
+NEAR_SKP_CTRL = [0x3D, 0x3E, 0x38, 0x34, 0x2C, 0x1C, 0x7C, 0xBC]      # every single-bit neighbour of SKP (0x3C)
 
 
 def make_words(rng, n):
@@ -113,7 +114,7 @@ def run_case(rng, tier, res):
         res.bin("always_valid_case")
 
     expected = []            # non-SKP symbols accepted, in order
-    st = {"out": 0, "broken": False, "done": False, "skp_run": 0, "prev_mask": 0, "masks": set()}
+    st = {"ready_low_reported": False, "out": 0, "broken": False, "done": False, "skp_run": 0, "prev_mask": 0, "masks": set()}
     skp_word_cycles = []
     strobe_cycles = []
 
@@ -151,6 +152,15 @@ def run_case(rng, tier, res):
         sv, sd, sc, sr = b.get(sink.valid), b.get(sink.payload), b.get(sink.ctrl), b.get(sink.ready)
         ov, od, oc, orr = b.get(source.valid), b.get(source.payload), b.get(source.ctrl), b.get(source.ready)
         strobe = b.get(dut.skip_removed)
+        # In the physical layer the PHY receive pins are wired straight to `sink` with valid tied high and `ready`
+        # ignored (the PHY cannot be back-pressured): with the downstream always ready the remover must take a word
+        # in every cycle, otherwise that word is lost in the real wiring.
+        res.event("sink_ready_checked")
+        if not sr and not st["ready_low_reported"]:
+            st["ready_low_reported"] = True
+            res.violation("sink_backpressure_with_downstream_ready",
+                          "cyc=%d sink.ready low (sink.valid=%d, %d symbols buffered) although source.ready is tied high: "
+                          "the word of this cycle is lost in USB3PhysicalLayer" % (b.cycle, sv, len(expected) - st["out"]))
         fill = len(expected) - st["out"]          # symbols accepted and not yet put out (before this cycle)
         if strobe:
             res.event("skip_removed_strobes")
